@@ -1,6 +1,7 @@
 /- Model/C16Gen.lean — the C16 models instantiated with the facts the translator extracted. -/
 import PsutilModel.Model.C16
 import PsutilModel.Model.C16Conc
+import PsutilModel.Model.C16Conc2
 import PsutilModel.Generated.C16
 namespace Psutil.C16
 
@@ -64,5 +65,35 @@ def ccfgProc : Conc.CCfg :=
   { nAct := Gen.C16.procActivate.length, nDeact := Gen.C16.procDeactivate.length,
     storeReloads := Gen.C16.storeReloads, storeGuard := Gen.C16.storeGuard,
     delGuard := Gen.C16.delSwallows }
+
+/- ------------------------------------------------------------------ two cache levels -/
+
+def srcNames : List String := ["stat", "status", "smaps", "statm", "cmdline", "io"]
+def ffunNames : List String := ["cpu_times", "memory_info", "ppid", "uids"]
+
+/-- "front" = one front-end cache_(de)activate, "proc" = `_proc.oneshot_enter()/exit()`, i.e. one
+    platform cache_(de)activate per helper it lists; an unknown token is dropped (and `ccfg2_good` fails) -/
+def expandOrder (order : List String) (nProc : Nat) : List Conc2.Lvl :=
+  order.flatMap fun t =>
+    if t = "front" then [Conc2.Lvl.front] else if t = "proc" then List.replicate nProc Conc2.Lvl.proc else []
+
+/-- the source read by the platform method of front-end memoised method number `f` (method table) -/
+def fsrcOpt (f : Nat) : Option Nat :=
+  match ffunNames[f]? with
+  | none => none
+  | some nm =>
+    match Gen.C16.meths.find? (fun r => r.1 == nm && r.2.1 == nm) with
+    | some (_, _, _, [src], _) => srcNames.idxOf? src
+    | _ => none
+
+/-- the two-level concurrent model instantiated with the extracted facts -/
+def ccfg2 : Conc2.CCfg2 :=
+  { actSeq := expandOrder Gen.C16.actOrder Gen.C16.procActivate.length
+    deactSeq := expandOrder Gen.C16.deactOrder Gen.C16.procDeactivate.length
+    delGuard := Gen.C16.delSwallows
+    fsrc := fun f => (fsrcOpt f).getD 0
+    pmemo := fun g => match srcNames[g]? with
+      | some nm => Gen.C16.memoProc.contains nm
+      | none => false }
 
 end Psutil.C16
